@@ -390,7 +390,7 @@ def _register_c10():
         finally:
             del e.hyps[len(e.hyps) - len(hyps):]
     Contract("exponax.etdrk._base_etdrk.BaseETDRK.step_fourier", key="exponax.etdrk.ETDRK.step_fourier#C10", props=P, inline_all=True, spec=None,
-             invoke=et_invoke, post=et_post, cases=[et_build(o) for o in (1, 2, 3, 4)]).tscale = 5.0   # (the four-stage identity needs ~20 s of z3)
+             invoke=et_invoke, post=et_post, cases=[et_build(o) for o in (1, 2, 3, 4)])
 
     # ---- the 3D velocity steppers use exactly that: a per-mode (one-channel) linear operator and the projected convection
     def ns_build(cls, extra):
@@ -411,13 +411,21 @@ def _register_c10():
                 smt.req(values.dim_term(lin.shape[0]), 1), kind="ensures")
         e.prove("C10 (direct): the nonlinear term of the 3D velocity stepper is the projected rotational convection", isinstance(nl, ProjectedConvection3d), kind="ensures")
         uh = sym.array(e, "uh", (3,) + wsh(3, N), "complex")
+        forced = hasattr(nl, "injection")
         with shimmed():
             out = nl(uh)
+            base = ProjectedConvection3d.__call__(nl, uh) if forced else out
         idx, hyps = mode_index(e, 3, N)
+        s = tuple(idx[1:])
         e.hyps.extend(hyps)
         try:
-            e.prove("C10 (direct): the stepper's own nonlinear term (forcing included) has zero spectral divergence at every mode",
-                    _czero(_div(dop, out, tuple(idx[1:]))), kind="ensures")
+            # (stated in three easy pieces for the forced stepper: unforced part, forcing, and their sum being the term)
+            e.prove("C10 (direct): the stepper's convection term has zero spectral divergence at every mode", _czero(_div(dop, base, s)), kind="ensures")
+            if forced:
+                e.prove("C10 (direct): the Kolmogorov forcing has zero spectral divergence at every mode", _czero(_div(dop, nl.injection, s)), kind="ensures")
+                for d in range(3):
+                    e.prove(f"C10 (direct): the forced stepper's nonlinear term is convection term + forcing (channel {d})",
+                            smt.ceq(smt.C(out.at_((d,) + s)), smt.cadd(smt.C(base.at_((d,) + s)), smt.C(nl.injection.at_((d,) + s)))), kind="ensures")
         finally:
             del e.hyps[len(e.hyps) - len(hyps):]
     ST = ex.stepper
@@ -426,6 +434,12 @@ def _register_c10():
              cases=[ns_build(ST.NavierStokesVelocity, lambda e: {"diffusivity": sym.real(e, "nu"), "drag": sym.real(e, "lam")}),
                     ns_build(ST.KolmogorovFlowVelocity, lambda e: {"diffusivity": sym.real(e, "nu"), "drag": sym.real(e, "lam"), "injection_mode": sym.integer(e, "kinj", lo=1),
                                                                      "injection_scale": sym.real(e, "gamma")})])
+    # the three-dimensional direct checks need tens of seconds of z3 each: a larger time budget, so that a busy machine
+    # does not turn them into "undecided"
+    from symjnp.contracts import REGISTRY as _REG
+    for k, c in _REG.items():
+        if k.endswith("#C10") or "#C10:" in k:
+            c.tscale = max(c.tscale, 2.0)
 
 
 def _cur():
